@@ -5,6 +5,9 @@ import stage_lin, stage_ff
 import re
 def run_oracle(chk, rng, ncases, task, name, grounds, probes=()):
     cases = stage_lin.gen_cases(rng, ncases, grounds=grounds)
+    rp = replay_input()
+    if rp and rp['kind'] == 'spec':
+        cases.insert(0, dict(id=2 * 10 ** 6, seed=1, spec=json.loads(json.dumps(rp['value'])), fixed_sources=bool(rp['value'].get('sources'))))
     for k, f in enumerate(probes):
         # inputs of recorded findings are always exercised
         cases.append(dict(id=10 ** 6 + k, seed=1, spec=json.load(open(f)), fixed_sources=True))
